@@ -198,6 +198,9 @@ def ob_sequence(ename, spec, sname, seq, label):
                 elif o == "C":
                     c = e.copy()
                     edits_c = list(edits_e)
+                    for (who, kind, idx), val in list(toggled.items()):     # the copy is a copy of the configuration as it is now
+                        if who == "e":
+                            toggled[("c", kind, idx)] = val
                     checks.append((op, graph_disjoint(fl, e, c), None))
                 elif o == "CHECK_GRAPH":
                     checks.append((op, graph_disjoint(fl, e, c), None))
@@ -273,7 +276,10 @@ def ob_sequence(ename, spec, sname, seq, label):
                               "    elif o == 'R': tgt.restart()",
                               "    elif o == 'CHECK_RESTARTED':",
                               "        if not all(np.isnan(iv.value) for iv in tgt.input_variables) or not all(np.isnan(ov.value) and np.isnan(ov.previous_value) and not ov.fuzzy.terms for ov in tgt.output_variables) or not all(r.is_loaded() and not r.triggered and float(r.activation_degree) == 0.0 for rb in tgt.rule_blocks for r in rb.rules): bad = 'state after restart differs from a fresh engine'; break",
-                              "    elif o == 'C': c = e.copy(); ec = list(ee)",
+                              "    elif o == 'C':",
+                              "        c = e.copy(); ec = list(ee)",
+                              "        for (who, tk), val in list(tog.items()):",
+                              "            if who == 'e': tog[('c', tk)] = val",
                               "    elif o == 'CHECK_GRAPH':",
                               "        if any(isinstance(t, (fl.Linear, fl.Function)) and t.engine is not c for vv in c.variables for t in vv.terms): bad = 'term of the copy references another engine'; break",
                               "    elif o in ('E', 'W'): edit(tgt, o, q); eds.append(o)",
